@@ -209,6 +209,145 @@ theorem lock_context :
                  ("scrapli/channel/async_channel.py", "asyncio.Lock", true)] ∧
     channelLockDefault = false := by decide
 
+/-! ### a timed-out operation (thread-pool timeout mechanism) -/
+
+/-- a call that raises while its caller holds the lock frees the lock: what the woken worker does -/
+theorem failing_call_releases (D : Dev σ) (progs : List Prog) (s : St σ) (i : Nat) (c : Caller) (st : Step)
+    (rest : List Step) (hc : s.callers[i]? = some c) (hcur : c.cur = some (st :: rest)) (hf : st.fails = true) :
+    (step true D progs s i).lock = none := by
+  unfold step
+  simp [hc, hcur, hf, finishOp]
+
+namespace PoolTimeout
+
+def fairTail : List Bool := [true, false, true, false, true, false]
+
+/-- **a timed-out operation releases the lock**: if `_handle_timeout` (which closes the transport) runs
+    before the worker is joined and closing wakes the blocked read, then after ANY schedule prefix three
+    fair rounds (calling thread, worker) end with `ScrapliTimeout` delivered, the transport closed and
+    the channel lock free. -/
+theorem timed_out_op_releases_lock (o : TOpts) (hc : o.closeBeforeJoin = true) (hw : o.closeWakes = true)
+    (pre : List Bool) :
+    (trun o (pre ++ fairTail)).pc = .raised ∧ (trun o (pre ++ fairTail)).lock = false ∧
+    (trun o (pre ++ fairTail)).closed = true := by
+  rcases o with ⟨cbj, cw⟩
+  simp only at hc hw
+  subst hc; subst hw
+  -- the reachable states
+  let good : TSt → Bool := fun s =>
+    s == ⟨.waiting, false, true, true⟩ || s == ⟨.first, false, true, true⟩ || s == ⟨.second, true, true, true⟩ ||
+    s == ⟨.second, true, false, false⟩ || s == ⟨.raised, true, false, false⟩
+  have hstep : ∀ (s : TSt) (t : Bool), good s = true → good (tstep ⟨true, true⟩ s t) = true := by
+    intro s t
+    rcases s with ⟨pc, c, b, l⟩
+    cases pc <;> cases c <;> cases b <;> cases l <;> cases t <;> decide
+  have hreach : ∀ (l : List Bool) (s : TSt), good s = true → good (l.foldl (tstep ⟨true, true⟩) s) = true := by
+    intro l
+    induction l with
+    | nil => intro s h; exact h
+    | cons t l ih => intro s h; exact ih _ (hstep s t h)
+  have hfin : ∀ s : TSt, good s = true →
+      (fairTail.foldl (tstep ⟨true, true⟩) s).pc = .raised ∧ (fairTail.foldl (tstep ⟨true, true⟩) s).lock = false ∧
+      (fairTail.foldl (tstep ⟨true, true⟩) s).closed = true := by
+    intro s
+    rcases s with ⟨pc, c, b, l⟩
+    cases pc <;> cases c <;> cases b <;> cases l <;> decide
+  have := hfin _ (hreach pre {} (by decide))
+  simpa [trun, List.foldl_append] using this
+
+/-- whatever the order: `ScrapliTimeout` reaches the user only after the worker has left the lock context -/
+theorem raised_only_after_release (o : TOpts) (sched : List Bool) :
+    (trun o sched).pc = .raised → (trun o sched).lock = false := by
+  let inv : TSt → Bool := fun s => (s.lock == s.blocked) && (s.pc != .raised || !s.blocked)
+  have hstep : ∀ (s : TSt) (t : Bool), inv s = true → inv (tstep o s t) = true := by
+    intro s t
+    rcases o with ⟨cbj, cw⟩
+    rcases s with ⟨pc, c, b, l⟩
+    cases cbj <;> cases cw <;> cases pc <;> cases c <;> cases b <;> cases l <;> cases t <;> decide
+  have hreach : ∀ (l : List Bool) (s : TSt), inv s = true → inv (l.foldl (tstep o) s) = true := by
+    intro l
+    induction l with
+    | nil => intro s h; exact h
+    | cons t l ih => intro s h; exact ih _ (hstep s t h)
+  have h := hreach sched {} (by decide)
+  unfold trun
+  generalize sched.foldl (tstep o) {} = s at h
+  rcases s with ⟨pc, c, b, l⟩
+  cases pc <;> cases c <;> cases b <;> cases l <;> simp_all [inv]
+
+/-- **the other order**: if the worker is joined before `_handle_timeout` closes the transport, then under
+    EVERY schedule the lock stays held, the transport stays open and `ScrapliTimeout` is never delivered:
+    the timed-out caller and everybody queued on the lock hang. -/
+theorem join_before_close_never_releases (o : TOpts) (hc : o.closeBeforeJoin = false) (sched : List Bool) :
+    (trun o sched).lock = true ∧ (trun o sched).pc ≠ .raised ∧ (trun o sched).closed = false := by
+  rcases o with ⟨cbj, cw⟩
+  simp only at hc
+  subst hc
+  let stuck : TSt → Bool := fun s => s == ⟨.waiting, false, true, true⟩ || s == ⟨.first, false, true, true⟩
+  have hstep : ∀ (s : TSt) (t : Bool), stuck s = true → stuck (tstep ⟨false, cw⟩ s t) = true := by
+    intro s t
+    rcases s with ⟨pc, c, b, l⟩
+    cases cw <;> cases pc <;> cases c <;> cases b <;> cases l <;> cases t <;> decide
+  have hreach : ∀ (l : List Bool) (s : TSt), stuck s = true → stuck (l.foldl (tstep ⟨false, cw⟩) s) = true := by
+    intro l
+    induction l with
+    | nil => intro s h; exact h
+    | cons t l ih => intro s h; exact ih _ (hstep s t h)
+  have h := hreach sched {} (by decide)
+  unfold trun
+  generalize sched.foldl (tstep ⟨false, cw⟩) {} = s at h
+  rcases s with ⟨pc, c, b, l⟩
+  cases pc <;> cases c <;> cases b <;> cases l <;> simp_all [stuck]
+
+/-- so the statement without the order hypothesis is false … -/
+theorem timed_out_op_releases_lock_full_refuted :
+    ¬ (∀ (o : TOpts), o.closeWakes = true → ∀ pre : List Bool, (trun o (pre ++ fairTail)).lock = false) := by
+  intro h
+  have h1 := h ⟨false, true⟩ rfl []
+  have h2 := (join_before_close_never_releases ⟨false, true⟩ rfl ([] ++ fairTail)).1
+  rw [h1] at h2
+  cases h2
+
+/-- … and so is the one without "close wakes the read" (a transport whose blocked read is not woken by
+    close(): C07's finding) -/
+theorem close_must_wake (o : TOpts) (hw : o.closeWakes = false) (sched : List Bool) : (trun o sched).lock = true := by
+  rcases o with ⟨cbj, cw⟩
+  simp only at hw
+  subst hw
+  have hinv : ∀ (l : List Bool) (s : TSt), (s.lock = true ∧ s.blocked = true) →
+      ((l.foldl (tstep ⟨cbj, false⟩) s).lock = true ∧ (l.foldl (tstep ⟨cbj, false⟩) s).blocked = true) := by
+    intro l
+    induction l with
+    | nil => intro s h; exact h
+    | cons t l ih =>
+      intro s h
+      apply ih
+      rcases s with ⟨pc, c, b, lk⟩
+      simp only at h
+      cases cbj <;> cases pc <;> cases c <;> cases b <;> cases lk <;> cases t <;> simp_all [tstep, plan, doAct]
+  exact (hinv sched {} (by decide)).1
+
+open Scrapli.Gen.LockCoverage in
+/-- the order in the source (GENERATED from the AST of `_multiprocessing_timeout` / `_handle_timeout`):
+    `_handle_timeout` is called inside the `with ThreadPoolExecutor` block — before the implicit join —
+    and closes the transport before raising -/
+theorem pool_timeout_closes_before_join :
+    handleTimeoutInsidePoolBlock = true ∧ handleTimeoutClosesBeforeRaise = true := by decide
+
+open Scrapli.Gen.LockCoverage in
+/-- hence, for the source as it is and a transport whose close() wakes a blocked read, a timed-out
+    operation ends with the channel lock free -/
+theorem timed_out_op_releases_lock_src (pre : List Bool) :
+    (trun ⟨handleTimeoutInsidePoolBlock, true⟩ (pre ++ fairTail)).pc = .raised ∧
+    (trun ⟨handleTimeoutInsidePoolBlock, true⟩ (pre ++ fairTail)).lock = false :=
+  let h := timed_out_op_releases_lock ⟨handleTimeoutInsidePoolBlock, true⟩ pool_timeout_closes_before_join.1 rfl pre
+  ⟨h.1, h.2.1⟩
+
+/-- non-vacuity: the straightforward schedule (timeout, close, worker wakes, join) -/
+example : trun ⟨true, true⟩ [true, true, false, true] = ⟨.raised, true, false, false⟩ := by decide
+
+end PoolTimeout
+
 /-! ### non-vacuity of the hypotheses -/
 
 /-- `exProgs` satisfies the hypothesis of `own_output` … -/
